@@ -99,6 +99,8 @@ Verdict(r) ==
      IF ~WellFormed(r.sel) THEN <<"C14", "encoder output is not a well-formed SELFIES string">>
      ELSE IF r.strict /\ AroEdges(g.adj) = {} /\ OverfullAfter(g.atoms, g.adj, {}) # {}
           THEN <<"C06", "strict accepted a molecule with an atom above its capacity">>
+     ELSE IF r.strict /\ AroEdges(g.adj) # {} /\ MinOverfull(g.atoms, g.adj) # {}
+          THEN <<"C06", "strict accepted an aromatic molecule with an atom above its capacity under every valid assignment">>
      ELSE
      LET dd == DecodeFn(Split(r.sel))
      IN IF dd.pc # "done" \/ dd.fuzzy THEN <<"C10", "encoder output contains a symbol outside the grammar">>
